@@ -24,36 +24,37 @@ G = {
  'SWEEP':  [r'sweep\..*'],
 }
 P = {
- 'C01': 'LEX PARSE MATCH FSM VSET DECL INIT',
- 'C02': 'PARSE MATCH FSM FILL VSET DECL',
- 'C03': 'LEX PARSE MATCH FSM FILL VSET VENV VTEXT FLOW DECL INIT ROUTE HELP',
- 'C04': 'ROUTE INIT DECL HELP FSM FILL',
- 'C05': 'FLOW ROUTE INIT',
- 'C06': 'VSET VENV VTEXT FILL DECL MATCH FSM',
- 'C07': 'ROUTE INIT HELP FSM FILL VSET MATCH DECL PARSE',
+ # CORE: everything on the way from the declarations and the argument vector to the verdict and the bound values
+ 'C01': 'CORE',
+ 'C02': 'CORE',
+ 'C03': 'CORE VTEXT FLOW HELP',
+ 'C04': 'CORE HELP FLOW',
+ 'C05': 'FLOW ROUTE INIT FSM FILL',
+ 'C06': 'CORE VTEXT',
+ 'C07': 'CORE HELP FLOW',
  'C08': 'LEX PARSE INIT ROUTE DECL',
- 'C09': 'MATCH FSM FILL PARSE ROUTE',
- 'C10': 'MATCH FSM PARSE VSET DECL ROUTE',
- 'C11': 'MATCH FSM PARSE',
- 'C12': 'MATCH FSM PARSE VENV VSET DECL',
- 'C13': 'VSET VENV FILL FSM MATCH DECL PARSE',
- 'C14': 'ROUTE HELP INIT DECL',
- 'C15': 'FILL FSM MATCH DECL INIT SWEEP',
- 'C16': 'INIT DECL HELP ROUTE SWEEP',
- 'C17': 'HELP VTEXT DECL INIT',
+ 'C09': 'CORE',
+ 'C10': 'CORE',
+ 'C11': 'CORE',
+ 'C12': 'CORE',
+ 'C13': 'CORE',
+ 'C14': 'ROUTE HELP INIT DECL VTEXT FSM FILL',
+ 'C15': 'CORE',
+ 'C16': 'INIT DECL HELP ROUTE LEX PARSE',
+ 'C17': 'HELP VTEXT DECL INIT ROUTE',
  'C18': 'DECL LEX INIT HELP',
- 'C19': 'VSET VENV VTEXT FILL FSM MATCH DECL ROUTE PARSE',
- 'C20': 'SWEEP VSET MATCH FSM FILL DECL INIT ROUTE',
+ 'C19': 'CORE VTEXT',
+ 'C20': 'CORE VTEXT FLOW HELP',
 }
 # C03 (termination, no crash): only the safety/termination/subset/precondition obligations, plus the functional clauses
 # termination arguments rest on
-C03_CLAUSES = [r'.*/(safety|decreases|subset|pre)/.*', r'matcher\.\(\*options\)\.try/post/.*', r'matcher\.\(\*opt\)\.Match/post/.*',
+C03_CLAUSES = [r'.*/(safety|decreases|subset|pre|panic-post|inv-init|inv-pres)/.*', r'matcher\.\(\*options\)\.try/post/.*', r'matcher\.\(\*opt\)\.Match/post/.*',
                r'fsm\.(simplify|\(\*State\)\.simplifySelf)/.*', r'.*/post/(progress|error)$', r'lexer\.is.*/post/.*']
 m = json.load(open('/verif/obligations.map.json'))
 for pid, groups in P.items():
     fs = []
-    for g in groups.split():
-        fs += G[g]
+    for g in (groups + ' SWEEP').split():
+        fs += (sum((G[x] for x in 'LEX PARSE MATCH FSM FILL VSET VENV DECL INIT ROUTE'.split()), []) if g == 'CORE' else G[g])
     m[pid]['funcs'] = fs
     m[pid].pop('clauses', None)
     ex = [] if pid == 'C06' else [r'.*default-kept-on-failure.*']
